@@ -11,7 +11,7 @@ Lemma copy_loop_all sz bsz src :
     length P = i -> (i + length G) * sz <= bsz -> length G <= fuel -> cscript c = [] ->
     length TS = length G ->
     (forall j, j < length G -> nth_error src (k0 + j) = Some (STok (nth j TS 0))) ->
-    copy_loop false fuel sz bsz (i * sz) ((i + length G) * sz) k0 (Some src) count (P ++ G ++ Q) c
+    copy_loop true false fuel sz bsz (i * sz) ((i + length G) * sz) k0 (Some src) count (P ++ G ++ Q) c
     = Ok (P ++ map STok (seq (cnext c) (length G)) ++ Q,
           mkctx (cnext c + length G) [] (rev (copy_events (cnext c) TS) ++ clog c),
           count + length G, None).
@@ -51,9 +51,9 @@ Qed.
 
 (* mpt_buffer_set(next, traits, 0, src + 1, src->_used) on the fresh buffer of detach *)
 Lemma buffer_set_fresh e k r i n size E J :
-  env_ok e -> length E * esz e k <= size ->
+  env_ok e -> ehi e = true -> length E * esz e k <= size ->
   forall c, cscript c = [] ->
-  buffer_set_typed false (mkbuf r i n size 0 (Some k) (mkslots e (Some k) size)) (esz e k) 0
+  buffer_set_typed (eshape e) false (mkbuf r i n size 0 (Some k) (mkslots e (Some k) size)) (esz e k) 0
     (0 + length E * esz e k) (Some (map STok E ++ J)) c
   = Ok (with_used (with_slots (mkbuf r i n size 0 (Some k) (mkslots e (Some k) size))
                     (map STok (seq (cnext c) (length E)) ++ skipn (length E) (repeat SRaw (size / esz e k))))
@@ -61,8 +61,9 @@ Lemma buffer_set_fresh e k r i n size E J :
         mkctx (cnext c + length E) [] (rev (copy_events (cnext c) E) ++ clog c),
         RCount (length E)).
 Proof.
-  intros EO LE c SC. pose proof (esz_pos e k EO) as Hs. set (sz := esz e k) in *.
-  unfold buffer_set_typed. simpl bused. simpl bsize. simpl bslots.
+  intros EO HI LE c SC. pose proof (esz_pos e k EO) as Hs. set (sz := esz e k) in *.
+  unfold buffer_set_typed. fold (ehi e). fold (ehf e). rewrite HI. cbn [negb andb].
+  simpl bused. simpl bsize. simpl bslots.
   rewrite Nat.mod_0_l by lia. simpl Nat.sub.
   replace (0 + length E * sz <? 0) with false by (symmetry; apply Nat.ltb_ge; lia).
   rewrite fini_loop_done by lia. cbn [bind].
@@ -90,7 +91,7 @@ Proof. destruct k; reflexivity. Qed.
 Lemma shared_detach_constructs e nh w h id b k len :
   env_ok e -> winv e nh w -> h < nh ->
   handle w h = Some id -> hget w id = Some b -> btr b = Some k ->
-  2 <= bref b -> bncp b = false -> ecopyfail e = false -> cscript (wctx w) = [] ->
+  2 <= bref b -> bncp b = false -> ecopyfail e = false -> ehi e = true -> cscript (wctx w) = [] ->
   bused b <= len ->
   exists w' nid nb,
     step e w (OpDetach h len) = Ok (w', OOk)
@@ -100,7 +101,7 @@ Lemma shared_detach_constructs e nh w h id b k len :
     /\ buf_els e nb = seq (cnext (wctx w)) (length (buf_els e b))
     /\ (forall t, In t (buf_els e nb) -> ~ In t (buf_els e b)).
 Proof.
-  intros EO ((m & HI) & RI & LH) Hh HH HB T R2 NC CF SC UL.
+  intros EO ((m & HI) & RI & LH) Hh HH HB T R2 NC CF HINIT SC UL.
   pose proof (hget_lt _ _ _ HB) as LTi.
   pose proof (hinv_pre e w m id b EO HI HB) as P.
   destruct (typed_pre e b (wctx w) m k P T) as (Hs & EL & J & SL & US & LEN & BE & ULE & NDE & INE).
@@ -137,7 +138,7 @@ Proof.
   replace (bused b mod sz) with 0 by (rewrite US, mul_mod by assumption; reflexivity).
   cbn [Nat.eqb negb orb]. rewrite kind_eqb_refl. cbn [negb]. rewrite CF. cbn [andb].
   rewrite US, SL.
-  pose proof (buffer_set_fresh e k 1 false false size EL J EO ltac:(fold sz; lia)) as BS.
+  pose proof (buffer_set_fresh e k 1 false false size EL J EO HINIT ltac:(fold sz; lia)) as BS.
   fold sz in BS. fold nb0 in BS. rewrite BS by assumption. cbn [bind].
   set (nb' := with_used (with_slots nb0 (map STok (seq (cnext (wctx w)) (length EL))
                                           ++ skipn (length EL) (repeat SRaw (size / sz)))) (length EL * sz)).
@@ -163,6 +164,100 @@ Proof.
     pose proof (live_lt _ _ _ (hi_mon _ _ _ HI) Hl). lia.
 Qed.
 
+(* OpDetach on a shared typed buffer whose traits have a finaliser but no init function: the elements
+   cannot be copied.  The request is refused and NOTHING changes: no event, the handles and every
+   buffer as before (the block allocated for the copy is released again, the reference count of the
+   shared buffer is restored) - in particular no element bytes are duplicated.
+   (mpt_buffer_set as patched by docs/C05_set_noinit_copy.diff; BufferNoCopy refuses even earlier.) *)
+Lemma with_ref_restore b : 1 <= bref b -> with_ref (with_ref b (bref b - 1)) (S (bref (with_ref b (bref b - 1)))) = b.
+Proof. intros H. destruct b as [r i n sz u t sl]. unfold with_ref. simpl in *. f_equal. lia. Qed.
+
+Lemma shared_detach_noinit_refused e nh w h id b k len :
+  env_ok e -> winv e nh w -> h < nh ->
+  handle w h = Some id -> hget w id = Some b -> btr b = Some k ->
+  2 <= bref b -> ehi e = false -> ehf e = true -> 0 < bused b -> 0 < len ->
+  exists w',
+    step e w (OpDetach h len) = Ok (w', ORefused)
+    /\ whnd w' = whnd w /\ wctx w' = wctx w /\ (forall j, hget w' j = hget w j).
+Proof.
+  intros EO ((m & HI) & RI & LH) Hh HH HB T R2 NI HF UP LP.
+  pose proof (hget_lt _ _ _ HB) as LTi.
+  pose proof (hinv_pre e w m id b EO HI HB) as P.
+  destruct (typed_pre e b (wctx w) m k P T) as (Hs & EL & J & SL & US & LEN & BE & ULE & NDE & INE).
+  set (sz := esz e k) in *.
+  unfold step. cbn [op_handles forallb].
+  replace (h <? length (whnd w)) with true by (symmetry; apply Nat.ltb_lt; lia). cbn [andb step_op].
+  unfold on_buf. rewrite HH, HB. unfold detach. rewrite HB, T. fold sz.
+  replace (sz =? 0) with false by (symmetry; apply Nat.eqb_neq; lia).
+  set (len' := if len mod sz =? 0 then len else len + (sz - len mod sz)).
+  assert (LL : len <= len') by (unfold len'; destruct (len mod sz =? 0); lia).
+  assert (LA : len' mod sz = 0) by (apply round_up_aligned; assumption).
+  replace (bref b <? 2) with false by (symmetry; apply Nat.ltb_ge; lia).
+  cbn [andb negb].
+  replace (bused b =? 0) with false by (symmetry; apply Nat.eqb_neq; lia). cbn [negb].
+  destruct (bncp b) eqn:NC; cbn [andb].
+  { (* BufferNoCopy *)
+    cbn [bind]. exists w. repeat split; reflexivity. }
+  set (size := alloc_size e len').
+  assert (SZ : len' <= size) by (apply alloc_size_ge; assumption).
+  destruct (alloc e w len' false false (Some k)) as [w1 nid] eqn:A.
+  assert (W1 : w1 = fst (alloc e w len' false false (Some k))) by (rewrite A; reflexivity).
+  assert (NID : nid = length (wheap w)) by (change nid with (snd (w1, nid)); rewrite <- A; reflexivity).
+  set (nb0 := mkbuf 1 false false size 0 (Some k) (mkslots e (Some k) size)).
+  assert (HN1 : hget w1 nid = Some nb0) by (rewrite W1, hget_alloc, NID, Nat.eqb_refl; reflexivity).
+  assert (C1 : wctx w1 = wctx w) by (rewrite W1; reflexivity).
+  assert (WH1 : whnd w1 = whnd w) by (rewrite W1; reflexivity).
+  assert (L1 : length (wheap w1) = S (length (wheap w))).
+  { rewrite W1. unfold alloc. simpl. rewrite app_length. simpl. lia. }
+  assert (O1 : forall j, j <> nid -> hget w1 j = hget w j).
+  { intros j N. rewrite W1, hget_alloc. destruct (Nat.eqb_spec j (length (wheap w))); [lia|reflexivity]. }
+  rewrite HN1.
+  replace (negb (bref b - 1 =? 0)) with true by (symmetry; apply negb_true_iff, Nat.eqb_neq; lia).
+  set (r := bref b - 1).
+  set (w2 := hput w1 id (Some (with_ref b r)) (wctx w1)).
+  set (add := if len' <? bused b then len' else bused b).
+  assert (ADD : 0 < add /\ add <= len' /\ add mod sz = 0).
+  { unfold add. destruct (len' <? bused b) eqn:Z.
+    - apply Nat.ltb_lt in Z. repeat split; [lia|lia|assumption].
+    - apply Nat.ltb_ge in Z. repeat split; [lia|lia|]. rewrite US. apply mul_mod. assumption. }
+  destruct ADD as (AP & AL & AA).
+  change (wctx w2) with (wctx w1). rewrite C1.
+  (* mpt_buffer_set refuses the byte copy *)
+  assert (BS : buffer_set e nb0 (Some k) 0 (Some (bslots b)) add (wctx w) = Ok (nb0, wctx w, RErr BadOperation)).
+  { unfold buffer_set. cbn [bsize btr nb0].
+    replace (size <? 0 + add) with false by (symmetry; apply Nat.ltb_ge; lia).
+    fold sz. replace (sz =? 0) with false by (symmetry; apply Nat.eqb_neq; lia).
+    rewrite Nat.mod_0_l by lia. rewrite AA. cbn [Nat.eqb negb orb]. rewrite kind_eqb_refl. cbn [negb].
+    unfold buffer_set_typed. fold (ehi e). fold (ehf e). rewrite NI, HF. cbn [negb andb].
+    replace (0 <? 0 + add) with true by (symmetry; apply Nat.ltb_lt; lia). reflexivity. }
+  fold nb0. rewrite BS. cbn [bind].
+  (* the new buffer is released again *)
+  assert (LTi1 : id < length (wheap w1)) by lia.
+  assert (L2 : length (wheap w2) = length (wheap w1)) by (apply hput_len; assumption).
+  assert (LTn2 : nid < length (wheap w2)) by lia.
+  set (w3 := hput w2 nid (Some nb0) (wctx w)).
+  assert (HN3 : hget w3 nid = Some nb0) by (unfold w3; rewrite hget_hput_eq by assumption; reflexivity).
+  assert (L3 : length (wheap w3) = length (wheap w1)) by (unfold w3; rewrite hput_len by assumption; assumption).
+  unfold unref. rewrite HN3. cbn [bref nb0 Nat.eqb Nat.sub negb btr].
+  fold sz. replace (sz =? 0) with false by (symmetry; apply Nat.eqb_neq; lia).
+  cbn [bused]. rewrite Nat.mod_0_l by lia. cbn [Nat.sub].
+  rewrite fini_loop_done by lia. cbn [bind].
+  set (w4 := hput w3 nid None (wctx w3)).
+  assert (HB4 : hget w4 id = Some (with_ref b r)).
+  { unfold w4. rewrite hget_hput_ne by lia. unfold w3. rewrite hget_hput_ne by lia.
+    unfold w2. rewrite hget_hput_eq by assumption. reflexivity. }
+  unfold addref. rewrite HB4. cbn [bind].
+  eexists. split; [reflexivity|]. split; [exact WH1|]. split; [reflexivity|].
+  intros j.
+  assert (LTi4 : id < length (wheap w4)) by (unfold w4; rewrite hput_len by lia; lia).
+  rewrite hget_hput by assumption.
+  destruct (Nat.eqb_spec j id) as [->|Ni].
+  - rewrite HB. f_equal. unfold r. apply with_ref_restore. lia.
+  - unfold w4. rewrite hget_hput by lia. destruct (Nat.eqb_spec j nid) as [->|Nn].
+    + rewrite hget_beyond by lia. reflexivity.
+    + unfold w3. rewrite hget_hput_ne by lia. unfold w2. rewrite hget_hput_ne by lia. apply O1. assumption.
+Qed.
+
 Lemma reachable_winv e nh script ops w :
   env_ok e -> exec e (init_world nh script) ops = Ok w -> winv e nh w.
 Proof.
@@ -173,7 +268,7 @@ Qed.
 Lemma shared_copy_reachable e nh script ops w h id b k len :
   env_ok e -> exec e (init_world nh script) ops = Ok w -> h < nh ->
   handle w h = Some id -> hget w id = Some b -> btr b = Some k ->
-  2 <= bref b -> bncp b = false -> ecopyfail e = false -> cscript (wctx w) = [] ->
+  2 <= bref b -> bncp b = false -> ecopyfail e = false -> ehi e = true -> cscript (wctx w) = [] ->
   bused b <= len ->
   exists w' nid nb,
     step e w (OpDetach h len) = Ok (w', OOk)
@@ -191,4 +286,15 @@ Lemma reachable_step_total e nh script ops w o :
   exists w' x, step e w o = Ok (w', x) /\ winv e nh w'.
 Proof.
   intros EO E. apply step_total_all; [assumption|]. eapply reachable_winv; eassumption.
+Qed.
+
+Lemma shared_noinit_reachable e nh script ops w h id b k len :
+  env_ok e -> exec e (init_world nh script) ops = Ok w -> h < nh ->
+  handle w h = Some id -> hget w id = Some b -> btr b = Some k ->
+  2 <= bref b -> ehi e = false -> ehf e = true -> 0 < bused b -> 0 < len ->
+  exists w',
+    step e w (OpDetach h len) = Ok (w', ORefused)
+    /\ whnd w' = whnd w /\ wctx w' = wctx w /\ (forall j, hget w' j = hget w j).
+Proof.
+  intros EO E. apply shared_detach_noinit_refused; [assumption|]. eapply reachable_winv; eassumption.
 Qed.
